@@ -1,6 +1,7 @@
 package main
 
 import (
+	"math/big"
 	"fmt"
 	"go/types"
 	"strings"
@@ -236,11 +237,29 @@ func addValueFacts(s *State, v Value) {
 	}
 }
 
+// famRanges: the value range of the cells of a heap family, as implied by the Go type of the leaf (a byte is 0..255,
+// a slice length is not negative). The loads of the generator assume it for every cell they read (assumeLeafFacts);
+// the instance stage of skolem.go assumes it for the cells its instances read.
+var famRanges = map[string][2]*big.Int{}
+
+func noteFamilyRange(name string, l leaf) {
+	if _, ok := famRanges[name]; ok {
+		return
+	}
+	switch {
+	case l.rng != nil:
+		famRanges[name] = [2]*big.Int{l.rng.lo, l.rng.hi}
+	case strings.HasSuffix(l.path, "$o"), strings.HasSuffix(l.path, "$l"), strings.HasSuffix(l.path, "$c"), strings.HasSuffix(l.path, "$r"), strings.HasSuffix(l.path, "$p"):
+		famRanges[name] = [2]*big.Int{big.NewInt(0), nil}
+	}
+}
+
 // loadAt reads a value of type t located at (root, r, i, pathPrefix) from heap h.
 func (s *State) loadAt(h *Heap, root types.Type, r, i *Term, prefix string, t types.Type, facts bool) Value {
 	v := unflatten(t, "", func(l leaf) *Term {
 		name := familyName(root, joinPath(prefix, l.path))
 		fam := h.family(name, l.sort)
+		noteFamilyRange(name, l)
 		x := Select(Select(fam, r), i)
 		if !facts && (strings.HasSuffix(l.path, "$r") || strings.HasSuffix(l.path, "$p")) {
 			// read under a quantifier: the entry-heap well-formedness fact in quantified form
